@@ -156,6 +156,11 @@ def gen_unparse_tables(U):
     sl["Attribute_value"] = slot_by_child(slots_of(ast.Attribute(value=a, attr="x", ctx=ast.Load())), a)
     ys = slots_of(ast.Subscript(value=a, slice=b, ctx=ast.Load()))
     sl["Subscript_value"], sl["Subscript_slice"] = slot_by_child(ys, a), slot_by_child(ys, b)
+    sl_item, plain_item = ast.Slice(lower=None, upper=None, step=None), N("ti")
+    ys = slots_of(ast.Subscript(value=a, slice=ast.Tuple(elts=[sl_item, plain_item], ctx=ast.Load()), ctx=ast.Load()))
+    if slot_by_child(ys, a) != sl["Subscript_value"]:
+        raise TableError("Subscript value slot differs for a tuple index")
+    sl["Subscript_tuple_item"] = uniform([slot_by_child(ys, sl_item), slot_by_child(ys, plain_item)], "Subscript tuple items")
     ys = slots_of(ast.Slice(lower=a, upper=b, step=c))
     sl["Slice_lower"], sl["Slice_upper"], sl["Slice_step"] = (slot_by_child(ys, x) for x in (a, b, c))
     ys = slots_of(ast.Call(func=a, args=[b], keywords=[]))
@@ -239,7 +244,24 @@ def gen_unparse_tables(U):
             rows.append("[" + ";".join(str(ord(ch)) for ch in t) + "]")
         out.append(f"Definition escape_table_{qname} : list (list N) := [\n  " + ";\n  ".join(
             "; ".join(rows[i:i + 8]) for i in range(0, len(rows), 8)) + "]%N.")
+    # the rule above the table, sampled (checked against the model's rule by a vm_compute lemma)
+    samples = [0x300, 0x301, 0x3A9, 0x4F60, 0xD7FF, 0xD800, 0xDBFF, 0xDC00, 0xDFFF, 0xE000, 0xFFFF, 0x10000, 0x1F600, 0x10FFFF]
+    rows = []
+    for cp in samples:
+        a_, b_ = U.get_unescaped_str(chr(cp), "'"), U.get_unescaped_str(chr(cp), '"')
+        rows.append(f"({cp}, [" + ";".join(str(ord(ch)) for ch in a_) + "], [" + ";".join(str(ord(ch)) for ch in b_) + "])")
+    out.append("Definition escape_samples : list (N * list N * list N) := [" + "; ".join(rows) + "]%N.")
+    # repr of non-finite floats
+    reps = []
+    for v in (float("inf"), complex(0, float("inf")), float("nan"), 1e22, 0.5):
+        got = "".join(drive(U.unparse_Constant(ast.Constant(value=v), "'"))[1])
+        reps.append("(" + cps_list(repr(v)) + ", " + cps_list(got) + ")")
+    out.append("Definition float_samples : list (list N * list N) := [" + "; ".join(reps) + "]%N.")
     return out
+
+
+def cps_list(s):
+    return "[" + ";".join(str(ord(c)) for c in s) + "]"
 
 
 def coq_list(f, xs):
